@@ -56,6 +56,7 @@ var specs = []Spec{
 	{"x/accountedpool/keeper", "Keeper.PerpetualUpdates", "accountedAmount", false, true, "accountedPool.TotalTokens[i] ="},
 	{"x/perpetual/keeper", "Keeper.CheckAndLiquidateUnhealthyPosition", "perpLiquidateGuards", false, true, "if mtp.MtpHealth.LTE(safetyFactor)"},
 	{"x/leveragelp/keeper", "Keeper.ForceCloseLong", "lpCloseRepay", false, true, "collateralLeft :="},
+	{"x/commitment/keeper", "Keeper.UncommitTokens", "uncommitTotal", false, true, "k.SetParams(ctx, params)"},
 	{"x/stablestake/keeper", "msgServer.Bond", "bondShares", false, true, "shareCoins :="},
 	{"x/stablestake/keeper", "msgServer.Unbond", "unbondAmount", false, true, "depositDenom :="},
 	{"x/tradeshield/keeper", "msgServer.CancelSpotOrders", "cancelSpotBatchBody", false, true, ""},
@@ -77,6 +78,7 @@ var windowFrom = map[string]string{
 	"lpOpenHealthGuards":          "k.GetPositionHealth(",
 	"perpLiquidateGuards":         "safetyFactor := k.GetSafetyFactor(ctx)",
 	"bondShares":                  "if redemptionRate.IsZero()",
+	"uncommitTotal":               "params := k.GetParams(ctx)",
 	"lpCloseRepay":                "if position.LeveragedLpAmount.IsZero()",
 	"unbondAmount":                "redemptionAmount :=",
 }
@@ -98,6 +100,7 @@ var loopBody = map[string]bool{
 
 var windowResult = map[string]string{
 	"bondShares":      "shareAmount",
+	"uncommitTotal":   "=params.TotalCommitted",
 	"lpCloseRepay":    "repayAmount",
 	"unbondAmount":    "redemptionAmount",
 	"accountedAmount": "accountedPoolAmt",
